@@ -2,4 +2,6 @@ import Spec.GF
 import Spec.Geometry
 import Spec.Tables
 import Spec.Decode
+import Spec.Penalty
+import Spec.Sizing
 import Spec.Judge
